@@ -2,10 +2,12 @@
 (***************************************************************************)
 (* Exact money arithmetic for the specification.  TLC integers are 32 bit, *)
 (* satoshi amounts need 64 (and the defects of interest need more: sums    *)
-(* that wrap 2^64 in the code).  An amount is a record [h, u, e] meaning   *)
-(*        h * 2^62  +  u * 10^8  +  e      satoshi,    0 <= e < 10^8       *)
-(* with u * 10^8 + e < 2^62.  Addition normalises e; the model never       *)
-(* wraps - the code does, and that difference is what C04 looks for.       *)
+(* that wrap 2^64 in the code).  An amount is a record [h, u, e] of three  *)
+(* base-10^8 digits meaning                                                *)
+(*        h * 10^16  +  u * 10^8  +  e      satoshi,   0 <= u, e < 10^8    *)
+(* Every operation normalises, so digits never leave the 32-bit range.     *)
+(* The model never wraps - the code does, and that difference is what C04  *)
+(* looks for.                                                              *)
 (***************************************************************************)
 EXTENDS Integers, Sequences
 
@@ -13,10 +15,10 @@ COIN == 100000000
 
 A(u, e) == [h |-> 0, u |-> u, e |-> e]          \* u BTC + e satoshi
 Zero == A(0, 0)
-Pow63 == [h |-> 2, u |-> 0, e |-> 0]            \* 2^63
+Pow63 == [h |-> 922, u |-> 33720368, e |-> 54775808]   \* 2^63 = 9223372036854775808
 MaxMoney == A(21000000, 0)
 
-Norm(h, u, e) == [h |-> h, u |-> u + (e \div COIN), e |-> e % COIN]
+Norm(h, u, e) == LET u1 == u + (e \div COIN) IN [h |-> h + (u1 \div COIN), u |-> u1 % COIN, e |-> e % COIN]   \* \div floors, % is non-negative
 
 AmtAdd(a, b) == Norm(a.h + b.h, a.u + b.u, a.e + b.e)
 
@@ -27,12 +29,12 @@ AmtLT(a, b) ==
 AmtLE(a, b) == a = b \/ AmtLT(a, b)
 
 \* a - b for b <= a (only used for fees of valid transactions)
-AmtSub(a, b) == Norm(a.h - b.h, a.u - b.u - 1, a.e - b.e + COIN)
+AmtSub(a, b) == Norm(a.h - b.h, a.u - b.u, a.e - b.e)
 
-AmtPlusSat(a, d) == Norm(a.h, a.u - 1, a.e + d + COIN)    \* a + d satoshi, |d| < 10^8, a >= 1 BTC
+AmtPlusSat(a, d) == Norm(a.h, a.u, a.e + d)    \* a + d satoshi, |d| < 10^8
 
-RECURSIVE AmtSumSeq(_)
-AmtSumSeq(s) == IF s = <<>> THEN Zero ELSE AmtAdd(Head(s), AmtSumSeq(Tail(s)))
+\* (index-based: Head/Tail recursion is quadratic in TLC and some transactions have thousands of outputs)
+AmtSumSeq(s) == LET F[i \in 0..Len(s)] == IF i = 0 THEN Zero ELSE AmtAdd(F[i - 1], s[i]) IN F[Len(s)]
 
 InRange(a) == a.h = 0 /\ AmtLE(a, MaxMoney)
 
